@@ -403,27 +403,27 @@ theorem sumSimple_good (a b : QObj) (x y : Rat) :
 /-! ### derived quantities -/
 
 /-- every cached derived quantity is the one a creation on the current registry yields for its key -/
-def DInv (s : CState) : Prop := ∀ k d, dcacheGet s.dcache k = some d → newDerived s.reg k = .ok d
+def DInv (s : CState) : Prop := ∀ k d, dcacheGet s.dcache k = some d → newDerivedChecked lg s.reg k = .ok d
 
-theorem dinv_fresh (r : Registry) : DInv (CState.fresh r) := fun k d h => by simp [CState.fresh, dcacheGet] at h
+theorem dinv_fresh (r : Registry) : DInv lg (CState.fresh r) := fun k d h => by simp [CState.fresh, dcacheGet] at h
 
 /-- `s'` has the registry of `s` and only adds correct entries to the derived part of the cache -/
 def DExt (s s' : CState) : Prop :=
-  s'.reg = s.reg ∧ ∀ k d, dcacheGet s'.dcache k = some d → dcacheGet s.dcache k = some d ∨ newDerived s.reg k = .ok d
+  s'.reg = s.reg ∧ ∀ k d, dcacheGet s'.dcache k = some d → dcacheGet s.dcache k = some d ∨ newDerivedChecked lg s.reg k = .ok d
 
-theorem dext_refl (s : CState) : DExt s s := ⟨rfl, fun _ _ h => Or.inl h⟩
+theorem dext_refl (s : CState) : DExt lg s s := ⟨rfl, fun _ _ h => Or.inl h⟩
 
-theorem dext_trans {a b c : CState} (h1 : DExt a b) (h2 : DExt b c) : DExt a c := by
+theorem dext_trans {a b c : CState} (h1 : DExt lg a b) (h2 : DExt lg b c) : DExt lg a c := by
   refine ⟨h2.1.trans h1.1, ?_⟩
   intro k d hk
   rcases h2.2 k d hk with h | h
   · exact h1.2 k d h
   · rw [h1.1] at h; exact Or.inr h
 
-theorem dext_of_eq {s s' : CState} (hr : s'.reg = s.reg) (hd : s'.dcache = s.dcache) : DExt s s' :=
+theorem dext_of_eq {s s' : CState} (hr : s'.reg = s.reg) (hd : s'.dcache = s.dcache) : DExt lg s s' :=
   ⟨hr, fun k d h => by rw [hd] at h; exact Or.inl h⟩
 
-theorem dext_dinv {s s' : CState} (h : DExt s s') (hd : DInv s) : DInv s' := by
+theorem dext_dinv {s s' : CState} (h : DExt lg s s') (hd : DInv lg s) : DInv lg s' := by
   intro k d hk
   rw [h.1]
   rcases h.2 k d hk with h' | h'
@@ -490,7 +490,7 @@ theorem sumSimple_dcache (s : CState) (a b : QObj) (x y : Rat) : (sumSimple lg s
 def obtainDictPure (r : Registry) (entries : List (Sym × Sym × Int)) : Except ErrKind DObj :=
   match simpleCase entries with
   | some (c, u) => exMap descOfSimple (newQuantityPure lg r c u)
-  | none => newDerived r entries
+  | none => newDerivedChecked lg r entries
 
 /-- `Quantity.CreateDerived` as a function of the registry -/
 def createDerivedPure (r : Registry) (entries : List (Sym × Sym × Int)) : Except ErrKind DObj :=
@@ -501,26 +501,26 @@ def createDerivedPure (r : Registry) (entries : List (Sym × Sym × Int)) : Exce
 theorem dcacheGet_cons (k : List (Sym × Sym × Int)) (d : DObj) (m : List (List (Sym × Sym × Int) × DObj))
     (key : List (Sym × Sym × Int)) : dcacheGet ((k, d) :: m) key = if k = key then some d else dcacheGet m key := rfl
 
-theorem obtainDict_good (entries : List (Sym × Sym × Int)) {s : CState} (hs : SInv lg s) (hd : DInv s)
+theorem obtainDict_good (cap : Bool) (entries : List (Sym × Sym × Int)) {s : CState} (hs : SInv lg s) (hd : DInv lg s)
     (hn : NoLegacySyms lg s.reg) :
-    (obtainDict lg s entries).2 = obtainDictPure lg s.reg entries ∧ SInv lg (obtainDict lg s entries).1
-      ∧ DExt s (obtainDict lg s entries).1 := by
+    (obtainDict lg s cap entries).2 = obtainDictPure lg s.reg entries ∧ SInv lg (obtainDict lg s cap entries).1
+      ∧ DExt lg s (obtainDict lg s cap entries).1 := by
   unfold obtainDict obtainDictPure
   cases simpleCase entries with
   | some cu =>
     obtain ⟨c, u⟩ := cu
-    obtain ⟨v, i, r⟩ := obtain_good lg false c u s hs hn
+    obtain ⟨v, i, r⟩ := obtain_good lg cap c u s hs hn
     simp only at v i r ⊢
     rw [v]
-    exact ⟨rfl, i, dext_of_eq r (obtain_dcache lg s false c u)⟩
+    exact ⟨rfl, i, dext_of_eq lg r (obtain_dcache lg s cap c u)⟩
   | none =>
     simp only
     cases hc : dcacheGet s.dcache entries with
-    | some d => exact ⟨(hd _ _ hc).symm, hs, dext_refl s⟩
+    | some d => exact ⟨(hd _ _ hc).symm, hs, dext_refl lg s⟩
     | none =>
       simp only
-      cases hnd : newDerived s.reg entries with
-      | error e => exact ⟨rfl, hs, dext_refl s⟩
+      cases hnd : newDerivedChecked lg s.reg entries with
+      | error e => exact ⟨rfl, hs, dext_refl lg s⟩
       | ok d =>
         refine ⟨rfl, hs, rfl, ?_⟩
         intro k d' hk
@@ -529,14 +529,14 @@ theorem obtainDict_good (entries : List (Sym × Sym × Int)) {s : CState} (hs : 
         · rename_i hkk; cases hk; subst hkk; exact Or.inr hnd
         · exact Or.inl hk
 
-theorem createDerived_good (entries : List (Sym × Sym × Int)) {s : CState} (hs : SInv lg s) (hd : DInv s)
+theorem createDerived_good (entries : List (Sym × Sym × Int)) {s : CState} (hs : SInv lg s) (hd : DInv lg s)
     (hn : NoLegacySyms lg s.reg) :
     (createDerived lg s entries).2 = createDerivedPure lg s.reg entries ∧ SInv lg (createDerived lg s entries).1
-      ∧ DExt s (createDerived lg s entries).1 := by
+      ∧ DExt lg s (createDerived lg s entries).1 := by
   unfold createDerived createDerivedPure
   cases validateEntries lg s.reg entries with
-  | error e => exact ⟨rfl, hs, dext_refl s⟩
-  | ok _ => exact obtainDict_good lg entries hs hd hn
+  | error e => exact ⟨rfl, hs, dext_refl lg s⟩
+  | ok _ => exact obtainDict_good lg false entries hs hd hn
 
 /-- products and quotients of two simple operands, as a function of the registry -/
 def prodSimplePure (r : Registry) (op : ProdOp) (a b : QObj) (x y : Rat) : Except ErrKind (DObj × Rat) :=
@@ -559,35 +559,83 @@ def prodSimplePure (r : Registry) (op : ProdOp) (a b : QObj) (x y : Rat) : Excep
             | .mul => .ok (d, x * y')
             | .div => if y' = 0 then .error .other else .ok (d, x / y')
 
-theorem prodSimple_good (op : ProdOp) (a b : QObj) (x y : Rat) {s : CState} (hs : SInv lg s) (hd : DInv s)
+theorem prodSimple_good (op : ProdOp) (a b : QObj) (x y : Rat) {s : CState} (hs : SInv lg s) (hd : DInv lg s)
     (hn : NoLegacySyms lg s.reg) :
     (prodSimple lg s op a b x y).2 = prodSimplePure lg s.reg op a b x y ∧ SInv lg (prodSimple lg s op a b x y).1
-      ∧ DExt s (prodSimple lg s op a b x y).1 := by
+      ∧ DExt lg s (prodSimple lg s op a b x y).1 := by
   unfold prodSimple prodSimplePure
   cases getCategoryInfo s.reg a.cat with
-  | error e => exact ⟨rfl, hs, dext_refl s⟩
+  | error e => exact ⟨rfl, hs, dext_refl lg s⟩
   | ok ca =>
     simp only
     cases getCategoryInfo s.reg b.cat with
-    | error e => exact ⟨rfl, hs, dext_refl s⟩
+    | error e => exact ⟨rfl, hs, dext_refl lg s⟩
     | ok cb =>
       simp only
       cases (if ca.qtype = cb.qtype then convert lg s.reg ca.qtype b.unit a.unit y else Except.ok y) with
-      | error e => exact ⟨rfl, hs, dext_refl s⟩
+      | error e => exact ⟨rfl, hs, dext_refl lg s⟩
       | ok y' =>
         simp only
         cases mergeEntries op a b (if ca.qtype = cb.qtype then a.unit else b.unit) with
-        | error e => exact ⟨rfl, hs, dext_refl s⟩
+        | error e => exact ⟨rfl, hs, dext_refl lg s⟩
         | ok es =>
           simp only
           obtain ⟨v, i, r⟩ := createDerived_good lg (prune es) hs hd hn
           rw [v]
           exact ⟨rfl, i, r⟩
 
+/-- Sum/Subtract on two quantities given by their composing maps, as a function of the registry -/
+def sumDerivedPure (r : Registry) (op : SumOp) (d1 d2 : DObj) (x y : Rat) : Except ErrKind (DObj × Rat) :=
+  if d1.entries = d2.entries then .ok (d1, op.apply x y)
+  else
+    match matchList lg r (decide (1 < d1.entries.length)) [] x d1.entries with
+    | .error e => .error e
+    | .ok (used, x', es1) =>
+      match matchList lg r (decide (1 < d2.entries.length)) used y d2.entries with
+      | .error e => .error e
+      | .ok (_, y', es2) =>
+        match obtainDictPure lg r es1 with
+        | .error e => .error e
+        | .ok c1 =>
+          match obtainDictPure lg r es2 with
+          | .error e => .error e
+          | .ok c2 =>
+            if sameSet (joinUnits c1.entries) (joinUnits c2.entries) then .ok (c1, op.apply x' y')
+            else if (joinUnits c1.entries).isEmpty then .ok (c2, op.apply x' y')
+            else if (joinUnits c2.entries).isEmpty then .ok (c1, op.apply x' y')
+            else .error .units
+
+theorem sumDerived_good (op : SumOp) (d1 d2 : DObj) (x y : Rat) {s : CState} (hs : SInv lg s) (hd : DInv lg s)
+    (hn : NoLegacySyms lg s.reg) :
+    (sumDerived lg s op d1 d2 x y).2 = sumDerivedPure lg s.reg op d1 d2 x y ∧ SInv lg (sumDerived lg s op d1 d2 x y).1
+      ∧ DExt lg s (sumDerived lg s op d1 d2 x y).1 := by
+  unfold sumDerived sumDerivedPure
+  split
+  · exact ⟨rfl, hs, dext_refl lg s⟩
+  · cases matchList lg s.reg (decide (1 < d1.entries.length)) [] x d1.entries with
+    | error e => exact ⟨rfl, hs, dext_refl lg s⟩
+    | ok t1 =>
+      obtain ⟨used, x', es1⟩ := t1
+      simp only
+      cases matchList lg s.reg (decide (1 < d2.entries.length)) used y d2.entries with
+      | error e => exact ⟨rfl, hs, dext_refl lg s⟩
+      | ok t2 =>
+        obtain ⟨used2, y', es2⟩ := t2
+        simp only
+        obtain ⟨v1, i1, r1⟩ := obtainDict_good lg true es1 hs hd hn
+        rw [v1]
+        cases obtainDictPure lg s.reg es1 with
+        | error e => exact ⟨rfl, i1, r1⟩
+        | ok c1 =>
+          simp only
+          obtain ⟨v2, i2, r2⟩ := obtainDict_good lg true es2 i1 (dext_dinv lg r1 hd) (by rw [r1.1]; exact hn)
+          rw [v2, r1.1]
+          exact ⟨rfl, i2, dext_trans lg r1 r2⟩
+
 /-- **every query refines its cache-free meaning**: in a state that satisfies the cache invariant
 its answer is the answer on a freshly built database over the same registry, it keeps the cache
 invariant, and it does not change the registry -/
-theorem answer_refines (q : Query) {s : CState} (hs : SInv lg s) (hn : NoLegacySyms lg s.reg) (hd : DInv s) :
+theorem answer_refines (q : Query) {s : CState} (hs : SInv lg s) (hn : NoLegacySyms lg s.reg) (hd : DInv lg s) :
     (answer lg s q).2 = spec lg s.reg q ∧ SInv lg (answer lg s q).1 ∧ (answer lg s q).1.reg = s.reg := by
   have hf := sinv_fresh lg s.reg
   have hnf : NoLegacySyms lg (CState.fresh s.reg).reg := hn
@@ -678,15 +726,15 @@ theorem answer_refines (q : Query) {s : CState} (hs : SInv lg s) (hn : NoLegacyS
   | quantityType u => exact ⟨rfl, hs, rfl⟩
   | catInfo c => exact ⟨rfl, hs, rfl⟩
   | derived entries =>
-    obtain ⟨v, i, r⟩ := obtainDict_good lg entries hs hd hn
-    obtain ⟨v0, _, _⟩ := obtainDict_good lg entries hf (dinv_fresh s.reg) hnf
+    obtain ⟨v, i, r⟩ := obtainDict_good lg false entries hs hd hn
+    obtain ⟨v0, _, _⟩ := obtainDict_good lg false entries hf (dinv_fresh lg s.reg) hnf
     simp only [answer]
-    have v0' : (obtainDict lg (CState.fresh s.reg) entries).2 = obtainDictPure lg s.reg entries := v0
+    have v0' : (obtainDict lg (CState.fresh s.reg) false entries).2 = obtainDictPure lg s.reg entries := v0
     rw [v, v0']
     exact ⟨rfl, i, r.1⟩
   | createDerived entries =>
     obtain ⟨v, i, r⟩ := createDerived_good lg entries hs hd hn
-    obtain ⟨v0, _, _⟩ := createDerived_good lg entries hf (dinv_fresh s.reg) hnf
+    obtain ⟨v0, _, _⟩ := createDerived_good lg entries hf (dinv_fresh lg s.reg) hnf
     simp only [answer]
     have v0' : (createDerived lg (CState.fresh s.reg) entries).2 = createDerivedPure lg s.reg entries := v0
     rw [v, v0']
@@ -698,9 +746,9 @@ theorem answer_refines (q : Query) {s : CState} (hs : SInv lg s) (hn : NoLegacyS
     simp only at v v0 i r i0 r0
     have r0' : (obtain lg (CState.fresh s.reg) false c1 u1).1.reg = s.reg := r0
     have v0' : (obtain lg (CState.fresh s.reg) false c1 u1).2 = newQuantityPure lg s.reg c1 u1 := v0
-    have d1 : DInv (obtain lg s false c1 u1).1 := dext_dinv (dext_of_eq r (obtain_dcache lg s false c1 u1)) hd
-    have d10 : DInv (obtain lg (CState.fresh s.reg) false c1 u1).1 :=
-      dext_dinv (dext_of_eq r0 (obtain_dcache lg _ false c1 u1)) (dinv_fresh s.reg)
+    have d1 : DInv lg (obtain lg s false c1 u1).1 := dext_dinv lg (dext_of_eq lg r (obtain_dcache lg s false c1 u1)) hd
+    have d10 : DInv lg (obtain lg (CState.fresh s.reg) false c1 u1).1 :=
+      dext_dinv lg (dext_of_eq lg r0 (obtain_dcache lg _ false c1 u1)) (dinv_fresh lg s.reg)
     rw [v, v0']
     cases newQuantityPure lg s.reg c1 u1 with
     | error e => exact ⟨rfl, i, r⟩
@@ -709,8 +757,8 @@ theorem answer_refines (q : Query) {s : CState} (hs : SInv lg s) (hn : NoLegacyS
       obtain ⟨w, j, t⟩ := obtain_good lg false c2 u2 _ i (by rw [r]; exact hn)
       obtain ⟨w0, j0, t0⟩ := obtain_good lg false c2 u2 _ i0 (by rw [r0']; exact hn)
       simp only at w w0 j t j0 t0
-      have d2 := dext_dinv (dext_of_eq t (obtain_dcache lg _ false c2 u2)) d1
-      have d20 := dext_dinv (dext_of_eq t0 (obtain_dcache lg _ false c2 u2)) d10
+      have d2 := dext_dinv lg (dext_of_eq lg t (obtain_dcache lg _ false c2 u2)) d1
+      have d20 := dext_dinv lg (dext_of_eq lg t0 (obtain_dcache lg _ false c2 u2)) d10
       rw [r] at w
       rw [r0'] at w0
       rw [w, w0]
@@ -724,6 +772,36 @@ theorem answer_refines (q : Query) {s : CState} (hs : SInv lg s) (hn : NoLegacyS
         rw [t0, r0'] at z0
         rw [z, z0]
         exact ⟨rfl, k, (m.1.trans t).trans r⟩
+  | sumd op e1 e2 x y =>
+    obtain ⟨v, i, r⟩ := obtainDict_good lg false e1 hs hd hn
+    obtain ⟨v0, i0, r0⟩ := obtainDict_good lg false e1 hf (dinv_fresh lg s.reg) hnf
+    simp only [answer]
+    have r0' : (obtainDict lg (CState.fresh s.reg) false e1).1.reg = s.reg := r0.1
+    have v0' : (obtainDict lg (CState.fresh s.reg) false e1).2 = obtainDictPure lg s.reg e1 := v0
+    have d1 := dext_dinv lg r hd
+    have d10 := dext_dinv lg r0 (dinv_fresh lg s.reg)
+    rw [v, v0']
+    cases obtainDictPure lg s.reg e1 with
+    | error e => exact ⟨rfl, i, r.1⟩
+    | ok a =>
+      simp only
+      obtain ⟨w, j, t⟩ := obtainDict_good lg false e2 i d1 (by rw [r.1]; exact hn)
+      obtain ⟨w0, j0, t0⟩ := obtainDict_good lg false e2 i0 d10 (by rw [r0']; exact hn)
+      have d2 := dext_dinv lg t d1
+      have d20 := dext_dinv lg t0 d10
+      rw [r.1] at w
+      rw [r0'] at w0
+      rw [w, w0]
+      cases obtainDictPure lg s.reg e2 with
+      | error e => exact ⟨rfl, j, t.1.trans r.1⟩
+      | ok b =>
+        simp only
+        obtain ⟨z, k, m⟩ := sumDerived_good lg op a b x y j d2 (by rw [t.1, r.1]; exact hn)
+        obtain ⟨z0, _, _⟩ := sumDerived_good lg op a b x y j0 d20 (by rw [t0.1, r0']; exact hn)
+        rw [t.1, r.1] at z
+        rw [t0.1, r0'] at z0
+        rw [z, z0]
+        exact ⟨rfl, k, (m.1.trans t.1).trans r.1⟩
 
 /-! ### queries never touch the registry (no hypothesis at all) -/
 
@@ -769,18 +847,19 @@ theorem sumSimple_reg (s : CState) (a b : QObj) (x y : Rat) : (sumSimple lg s a 
           · exact copies_reg lg s _ _ _ _
         · exact copies_reg lg s _ _ _ _
 
-theorem obtainDict_dext (s : CState) (entries : List (Sym × Sym × Int)) : DExt s (obtainDict lg s entries).1 := by
+theorem obtainDict_dext (s : CState) (cap : Bool) (entries : List (Sym × Sym × Int)) :
+    DExt lg s (obtainDict lg s cap entries).1 := by
   unfold obtainDict
   cases simpleCase entries with
-  | some cu => exact dext_of_eq (obtain_reg lg s false cu.1 cu.2) (obtain_dcache lg s false cu.1 cu.2)
+  | some cu => exact dext_of_eq lg (obtain_reg lg s cap cu.1 cu.2) (obtain_dcache lg s cap cu.1 cu.2)
   | none =>
     simp only
     cases dcacheGet s.dcache entries with
-    | some d => exact dext_refl s
+    | some d => exact dext_refl lg s
     | none =>
       simp only
-      cases hnd : newDerived s.reg entries with
-      | error e => exact dext_refl s
+      cases hnd : newDerivedChecked lg s.reg entries with
+      | error e => exact dext_refl lg s
       | ok d =>
         refine ⟨rfl, ?_⟩
         intro k d' hk
@@ -789,23 +868,35 @@ theorem obtainDict_dext (s : CState) (entries : List (Sym × Sym × Int)) : DExt
         · rename_i hkk; cases hk; subst hkk; exact Or.inr hnd
         · exact Or.inl hk
 
-theorem createDerived_dext (s : CState) (entries : List (Sym × Sym × Int)) : DExt s (createDerived lg s entries).1 := by
+theorem createDerived_dext (s : CState) (entries : List (Sym × Sym × Int)) : DExt lg s (createDerived lg s entries).1 := by
   unfold createDerived
   cases validateEntries lg s.reg entries with
-  | error e => exact dext_refl s
-  | ok _ => exact obtainDict_dext lg s entries
+  | error e => exact dext_refl lg s
+  | ok _ => exact obtainDict_dext lg s false entries
 
-theorem prodSimple_dext (s : CState) (op : ProdOp) (a b : QObj) (x y : Rat) : DExt s (prodSimple lg s op a b x y).1 := by
+theorem prodSimple_dext (s : CState) (op : ProdOp) (a b : QObj) (x y : Rat) : DExt lg s (prodSimple lg s op a b x y).1 := by
   unfold prodSimple
   split
-  · exact dext_refl s
+  · exact dext_refl lg s
   · split
-    · exact dext_refl s
+    · exact dext_refl lg s
     · split
-      · exact dext_refl s
+      · exact dext_refl lg s
       · split
-        · exact dext_refl s
+        · exact dext_refl lg s
         · exact createDerived_dext lg s _
+
+theorem sumDerived_dext (s : CState) (op : SumOp) (d1 d2 : DObj) (x y : Rat) : DExt lg s (sumDerived lg s op d1 d2 x y).1 := by
+  unfold sumDerived
+  split
+  · exact dext_refl lg s
+  · split
+    · exact dext_refl lg s
+    · split
+      · exact dext_refl lg s
+      · split
+        · exact obtainDict_dext lg s true _
+        · exact dext_trans lg (obtainDict_dext lg s true _) (obtainDict_dext lg _ true _)
 
 theorem answer_reg (s : CState) (q : Query) : (answer lg s q).1.reg = s.reg := by
   cases q with
@@ -833,7 +924,7 @@ theorem answer_reg (s : CState) (q : Query) : (answer lg s q).1.reg = s.reg := b
   | defaultCategory u => rfl
   | quantityType u => rfl
   | catInfo c => rfl
-  | derived entries => exact (obtainDict_dext lg s entries).1
+  | derived entries => exact (obtainDict_dext lg s false entries).1
   | createDerived entries => exact (createDerived_dext lg s entries).1
   | prod op c1 u1 c2 u2 x y =>
     simp only [answer]
@@ -842,20 +933,28 @@ theorem answer_reg (s : CState) (q : Query) : (answer lg s q).1.reg = s.reg := b
     · split
       · exact (obtain_reg lg _ false c2 u2).trans (obtain_reg lg s false c1 u1)
       · exact ((prodSimple_dext lg _ op _ _ x y).1.trans (obtain_reg lg _ false c2 u2)).trans (obtain_reg lg s false c1 u1)
+  | sumd op e1 e2 x y =>
+    simp only [answer]
+    split
+    · exact (obtainDict_dext lg s false e1).1
+    · split
+      · exact (obtainDict_dext lg _ false e2).1.trans (obtainDict_dext lg s false e1).1
+      · exact ((sumDerived_dext lg _ op _ _ x y).1.trans (obtainDict_dext lg _ false e2).1).trans
+          (obtainDict_dext lg s false e1).1
 
 /-- no query adds a wrong entry to the derived part of the cache -/
-theorem answer_dext (s : CState) (q : Query) : DExt s (answer lg s q).1 := by
-  have ob := fun (t : CState) (cap : Bool) (c u : Sym) => dext_of_eq (obtain_reg lg t cap c u) (obtain_dcache lg t cap c u)
+theorem answer_dext (s : CState) (q : Query) : DExt lg s (answer lg s q).1 := by
+  have ob := fun (t : CState) (cap : Bool) (c u : Sym) => dext_of_eq lg (obtain_reg lg t cap c u) (obtain_dcache lg t cap c u)
   cases q with
-  | check c u => exact dext_of_eq (check_ext lg s c u).1 (check_dcache lg s c u)
+  | check c u => exact dext_of_eq lg (check_ext lg s c u).1 (check_dcache lg s c u)
   | create c u => exact ob s false c u
-  | createU u => exact dext_of_eq (obtainU_reg lg s u) (obtainU_dcache lg s u)
+  | createU u => exact dext_of_eq lg (obtainU_reg lg s u) (obtainU_dcache lg s u)
   | createC c =>
     simp only [answer]
     split
-    · exact dext_refl s
+    · exact dext_refl lg s
     · exact ob s false c _
-  | convert cq u v x => exact dext_refl s
+  | convert cq u v x => exact dext_refl lg s
   | objValidUnits c u => exact ob s false c u
   | isValid c u x => exact ob s false c u
   | add c1 u1 c2 u2 x y =>
@@ -863,24 +962,32 @@ theorem answer_dext (s : CState) (q : Query) : DExt s (answer lg s q).1 := by
     split
     · exact ob s false c1 u1
     · split
-      · exact dext_trans (ob s false c1 u1) (ob _ false c2 u2)
-      · exact dext_trans (dext_trans (ob s false c1 u1) (ob _ false c2 u2))
-          (dext_of_eq (sumSimple_reg lg _ _ _ x y) (sumSimple_dcache lg _ _ _ x y))
-  | validUnits c => exact dext_refl s
-  | baseUnit qt => exact dext_refl s
-  | units qt => exact dext_refl s
-  | defaultCategory u => exact dext_refl s
-  | quantityType u => exact dext_refl s
-  | catInfo c => exact dext_refl s
-  | derived entries => exact obtainDict_dext lg s entries
+      · exact dext_trans lg (ob s false c1 u1) (ob _ false c2 u2)
+      · exact dext_trans lg (dext_trans lg (ob s false c1 u1) (ob _ false c2 u2))
+          (dext_of_eq lg (sumSimple_reg lg _ _ _ x y) (sumSimple_dcache lg _ _ _ x y))
+  | validUnits c => exact dext_refl lg s
+  | baseUnit qt => exact dext_refl lg s
+  | units qt => exact dext_refl lg s
+  | defaultCategory u => exact dext_refl lg s
+  | quantityType u => exact dext_refl lg s
+  | catInfo c => exact dext_refl lg s
+  | derived entries => exact obtainDict_dext lg s false entries
   | createDerived entries => exact createDerived_dext lg s entries
   | prod op c1 u1 c2 u2 x y =>
     simp only [answer]
     split
     · exact ob s false c1 u1
     · split
-      · exact dext_trans (ob s false c1 u1) (ob _ false c2 u2)
-      · exact dext_trans (dext_trans (ob s false c1 u1) (ob _ false c2 u2)) (prodSimple_dext lg _ op _ _ x y)
+      · exact dext_trans lg (ob s false c1 u1) (ob _ false c2 u2)
+      · exact dext_trans lg (dext_trans lg (ob s false c1 u1) (ob _ false c2 u2)) (prodSimple_dext lg _ op _ _ x y)
+  | sumd op e1 e2 x y =>
+    simp only [answer]
+    split
+    · exact obtainDict_dext lg s false e1
+    · split
+      · exact dext_trans lg (obtainDict_dext lg s false e1) (obtainDict_dext lg _ false e2)
+      · exact dext_trans lg (dext_trans lg (obtainDict_dext lg s false e1) (obtainDict_dext lg _ false e2))
+          (sumDerived_dext lg _ op _ _ x y)
 
 /-! ### registrations whose unit symbols are not legacy spellings keep `NoLegacySyms` -/
 
@@ -942,10 +1049,10 @@ theorem step_noLegacy {r : Registry} (hr : RegInv r) (h : NoLegacySyms lg r) {op
 
 /-- the invariant of a session: well-formed registry, memo tables that agree with it, no unit
 registered under a legacy spelling -/
-def Inv (s : CState) : Prop := RegInv s.reg ∧ SInv lg s ∧ NoLegacySyms lg s.reg ∧ DInv s
+def Inv (s : CState) : Prop := RegInv s.reg ∧ SInv lg s ∧ NoLegacySyms lg s.reg ∧ DInv lg s
 
 theorem inv_fresh_empty : Inv lg (CState.fresh Registry.empty) :=
-  ⟨regInv_empty, sinv_fresh lg _, fun u w h => by simp [CState.fresh, Registry.empty, ixGet] at h, dinv_fresh _⟩
+  ⟨regInv_empty, sinv_fresh lg _, fun u w h => by simp [CState.fresh, Registry.empty, ixGet] at h, dinv_fresh lg _⟩
 
 /-- the step does not register a unit under a legacy spelling -/
 def opClean : COp → Bool
